@@ -115,7 +115,7 @@ func startCollectors() *collectors {
 					enc = "none"
 				}
 				if c := cur.Load(); c != nil {
-					c.request(who, r.URL.EscapedPath(), hdr, enc)
+					c.request(who, r.RequestURI, hdr, enc) // the request target exactly as sent on the wire
 				}
 				w.WriteHeader(http.StatusOK)
 			})}
@@ -764,6 +764,8 @@ func executeExporter(pl expPlan, settings []string, conc *Conc) expObs {
 		// ... except that a deadline probe may still have run (HTTP: before the connection attempt)
 		if cp.hasDL {
 			ob.timeout = conc.absDeadline("timeout", cp.deadline, cp.remMs)
+		} else if deadlineExpired(ob.err) {
+			ob.timeout = []string{"expired"} // the export's own deadline ran out on the way to a loopback collector
 		}
 		return ob
 	}
